@@ -58,7 +58,7 @@ def oracle(toks, line):
     if op in ("tvstore", "tvstore_t", "cbret"):
         g = guest_of(toks[1], toks[2]); v = int(toks[3], 0)
         return line == (f"ok guest={v}" if rep(g, v) else "abort")
-    if op in ("tvload", "invret", "cbarg"):
+    if op in ("tvload", "tvload_u", "invret", "cbarg"):
         v = int(toks[3], 0)
         return line == (f"ok {v}" if rep(TYPES[toks[2]], v) else "abort")
     if op in ("invarg", "invarg_t"):
@@ -106,7 +106,7 @@ def neighbours(toks):
             out.append(f"conv {toks[1]} {toks[2]} {v}")
     elif len(toks) == 4:
         v = int(toks[3], 0)
-        for op in ("tvstore", "tvload", "invarg", "invret", "cbarg", "cbret"):
+        for op in ("tvstore", "tvload", "tvload_u", "invarg", "invret", "cbarg", "cbret"):
             for d in (-1, 0, 1):
                 out.append(f"{op} {toks[1]} {toks[2]} {v + d}")
     return out
@@ -151,7 +151,7 @@ def run(chk):
                 for op in ("tvstore", "tvstore_t", "invarg", "invarg_t", "cbret"):
                     ops.append(f"{op} {abi} {t} {v}")
             for v in gv:
-                for op in ("tvload", "invret", "cbarg"):
+                for op in ("tvload", "tvload_u", "invret", "cbarg"):
                     ops.append(f"{op} {abi} {t} {v}")
     # (5) raw values of ANOTHER integer type stored into sandbox memory: `tainted_volatile<T> = (U)v`
     for abi in ABIS:
